@@ -11,11 +11,12 @@ TECH_T = "Lean 4 proof over a model regenerated from source (translator) + corre
 CLAIMED = {
  "C01": ("proof", "Lean 4 theorems over the model regenerated from /repo by the translator: homomorphism, inverse, identity, "
          "neutrality (and associativity as corollary) for SO2, SE2, R2, R3, SO3Quat, SO3Mrp, SO3Dcm, SE3Quat/Mrp, SE23Quat/Mrp and "
-         "four direct products, for ALL valid inputs; from_Matrix right-inverse for SO2, SE2, SO3Dcm. Euler product and the "
-         "Shepperd from_Matrix are covered by C07 + numeric search only (named in evidence).", "DESIGN.md §2 C01", TECH_T),
+         "four direct products, for ALL valid inputs; from_Matrix right-inverse for SO2, SE2, SO3Dcm and — through the C07 "
+         "theorems, which are obligations of this check too — for SO3Quat (Shepperd, every proper rotation) and SO3Mrp. Euler product: numeric search only.", "DESIGN.md §2 C01", TECH_T),
  "C04": ("proof", "Lean 4 theorems over the regenerated model: ad_x y = [x,y], [x,y]^ = commutator, antisymmetry, Jacobi for every "
          "algebra; (Ad_X y)^ M(X) = M(X) y^ for every group (all valid X, all y); Ad homomorphism / inverse for SO2, SE2, Rn, SO3*, SE3*; "
-         "k×k shapes enforced by the types. Ad_exp = exp(ad) and SE23 Ad homomorphism: numeric search only (named in evidence).",
+         "k×k shapes enforced by the types; Ad_exp(x) = NormedSpace.exp(ad_x) for the SO(3) forms (quaternion, DCM, MRP with shadow switch) on the "
+         "closed-form cells and at zero (Props/C04E via C02). Ad_exp for SE2/SE3/SE23 and the SE23 Ad homomorphism: numeric search only.",
          "DESIGN.md §2 C04", TECH_T),
  "C13": ("proof", "Lean 4 theorems over the control_allocation program regenerated from rdd2.derive_control_allocation(): for ALL demands and "
          "all constants every motor force is in [0,F_max] and omega = sqrt(Fp/Ct) with non-negative radicand; a jointly achievable demand is "
@@ -45,7 +46,8 @@ CLAIMED = {
  "C03": ("proof", "Lean 4 theorems over the regenerated log/exp programs: exp and log mutually inverse identically for SO2, R2, R3; SE2 "
          "exp(log X) = X and log(exp x) = x whenever the code's denominator is non-zero, and that denominator is non-zero for eps<=|theta|<2pi; "
          "SO3Mrp: exp(log r) = r for canonical MRPs and the log angle is 4 atan|r| <= pi (principal); SO3Quat: log(-q) = log(q) (sign independent) "
-         "and the half angle lies in [0, pi/2] (principal). DCM/Euler logs, SE3/SE23 translation parts and Taylor cells: numeric search only.",
+         "and the half angle lies in [0, pi/2]; for unit quaternions on the closed-form cells exp(log q) = q (same rotation for either sign), "
+         "log(exp x) = x for |x| < pi, and |log q| = 2 arccos|q0| <= pi (principal). DCM/Euler logs, SE3/SE23 translation parts and Taylor cells: numeric search only.",
          "DESIGN.md §2 C03", TECH_T),
  "C05": ("proof", "Lean 4 theorems over the regenerated Jacobian programs: J_l(x) = J_r(-x) for so3/se3/se23 (all x); so3 core forms; on the "
          "closed-form cell the so3 J_l equals the left-Jacobian series sum_n ad^n/(n+1)! (HasSum, proved from a generic series lemma) and "
@@ -63,19 +65,26 @@ CLAIMED = {
          "satisfies the three differential equations for every t with the right initial values; Props/C08 proves that the regenerated "
          "strapdown_ins_propagate returns, for EVERY input, that flow form with the code's series coefficient values (core identities), and on the "
          "closed-form cell (|w dt|^2 >= 4 eps, any dt of either sign) exactly the flow at t = dt with the quaternion norm preserved; dt = 0 is the "
-         "identity. Uniqueness of the ODE solution, the semigroup law as a theorem and Taylor cells: numeric search only (named in evidence).",
+         "identity; the semigroup law (dt1 then dt2 = dt1 + dt2) is proved for the flow (Lib/Flow.flow_semigroup, trigonometric addition formulas + "
+         "w^3 = -|w|^2 w) and lifted to the translated propagator on the closed-form cells. Uniqueness of the ODE solution and Taylor cells: numeric search only.",
          "DESIGN.md §2 C08", TECH_T),
  "C15": ("proof", "Lean 4 theorems over the regenerated controller programs: rate-controller integrator within +-i_max after one step from ANY "
          "previous state and, by induction over the step list, after any non-empty sequence; filter coefficient strictly in (0,1); control law "
          "structure; acro stick map linear and bounded; velocity mode: yaw set-point in [-pi,pi] (lemma on C remainder + double(pi) <= pi), position "
          "set-point within 2 m of the vehicle (norm saturation lemma), reset puts it on the vehicle; attitude law is exactly zero for q_r = q and "
-         "q_r = -q. Position-controller bound, auto-level map and 'reaches the reference': numeric search only (named in evidence).",
+         "q_r = -q, it IS gain x quaternion-log of q^-1 q_r, and with unit gains applying the commanded rotation reaches the reference "
+         "(R(q) R(exp w) = R(q_r), closed-form cells, via C03); position controller and SE_2(3) outer loop: the feedback part of the demanded force "
+         "never exceeds 0.3 m g for ANY input and the height integrator stays within its limit (probe of the real body). Auto-level map, Taylor cells: search only.",
          "DESIGN.md §2 C15", TECH_T),
  "C14": ("proof", "Lean 4 theorems over the regenerated programs: the Euler(3-2-1)->quaternion helper returns a unit quaternion of the same "
          "rotation for EVERY yaw/pitch/roll (through the Shepperd theorem of C07); the flatness reference mr_ref_traj satisfies Euler's equation "
-         "M = J w' + w x Jw for the rates it returns for every input (peeled program), and its thrust magnitude is the clamped norm of m(g e3 - a). "
-         "Orthonormality/alignment of the position-controller, SE_2(3) outer loop and flatness frames, rate consistency and f_ref = mr_ref_traj are "
-         "explored by the numeric search (regular and degenerate branches); 3 known findings in the flatness degenerate branches are recorded.",
+         "M = J w' + w x Jw for the rates it returns for every input (peeled program), and its thrust magnitude is the clamped norm of m(g e3 - a); "
+         "position controller and SE_2(3) outer loop (real bodies with the demanded force, heading, body-y axis and frame exposed by probes; peeling "
+         "lemmas are rfl): for EVERY input — zero thrust and thrust parallel to the heading included — the frame is a proper rotation, the returned "
+         "quaternion is a unit quaternion of exactly that rotation, the body z axis is the normalised demanded force (world z below the 1e-3 guard), "
+         "nT is its norm, and on the main branch body y is perpendicular to the heading; mr_ref_traj on its main branch: proper rotation, alignment, "
+         "thrust = |m(g e3 - a)|, and roll/pitch rates equal to the true rotation rate of the thrust axis along any differentiable trajectory (HasDerivAt). "
+         "f_ref = mr_ref_traj, yaw rate, angular accelerations, auto-level: numeric search; 3 known findings in the flatness degenerate branches.",
          "DESIGN.md §2 C14", TECH_T),
  "C10": ("proof", "Lean 4 theorems over the regenerated instances of cyecca.util: LDL^T and UDU^T (n = 2, 3) reconstruct the symmetric input for "
          "EVERY matrix with non-zero pivots, unit-triangular / diagonal shapes are structural; RK4 is exact for cubic-in-time derivatives, is the "
@@ -129,7 +138,9 @@ CLAIMED = {
          "spin directions, equal arms — the shipped defaults, checked against the model's tables each run) turns motor forces into exactly the "
          "rows of the allocator's geometry map with positive gains (sqrt2/2)l, (sqrt2/2)l, CM; composed with C13, when the motors run at the "
          "commanded speeds the body moment is the range-limited demanded moment scaled by (sqrt2/2, sqrt2/2, 1): no sign or axis mismatch "
-         "between mixer and plant. Closed-loop convergence itself is not a theorem (stability of a saturated sampled nonlinear cascade): the "
+         "between mixer and plant; the commanded hover is an EXACT fixed point of the position-controller cascade stage by stage (zero error -> trim "
+         "straight up with the pure-yaw set-point; zero attitude/rate error -> zero rate/moment command; pure thrust split equally by the allocator; with "
+         "W = m g the plant at those rotor speeds has zero state derivative). Closed-loop convergence itself is not a theorem (stability of a saturated sampled nonlinear cascade): the "
          "check closes the loop on the real casadi functions with the gains of scripts/rdd2_sim.py over sampled initial conditions of the "
          "envelope (both cascades; thresholds 0.10 m, 0.05 rad, 0.05 rad/s, motor limits, no NaN) and reports a failing trajectory if one exists.",
          "DESIGN.md §2 C17", TECH_T + "; closed-loop part: falsification sweep over trajectories of the real functions (support, not proof)"),
